@@ -146,10 +146,21 @@ func execP2(kind string, a []string) string {
 		return "bad-op"
 	}
 	t, rf, rp := c14Hex(a[1]), c14Hex(a[2]), c14Hex(a[3])
+	// the entry point under test runs first (it may be the first call of the process, see `fresh` in execC14); only then are
+	// the keys on the line compared with NewParameters() and the parameters with GetDefaultParameters()
+	res := execP2a(kind, ctor, p, t, rf, rp, a[5:])
 	if k := c14Guard(func() string { return p.keys(t, rf, rp) }); k != a[4] {
 		return "bad-keys"
 	}
-	toks := a[5:]
+	if kind == "md" && (ctor == "reg" || ctor == "new" || ctor == "regsize") {
+		if dt, drf, drp := p.dflt(); dt != t || drf != rf || drp != rp {
+			return "bad-params"
+		}
+	}
+	return res
+}
+
+func execP2a(kind, ctor string, p *p2Pkg, t, rf, rp int, toks []string) string {
 	switch kind {
 	case "p2perm":
 		outs := make([]string, len(toks))
@@ -181,9 +192,13 @@ func execP2(kind string, a []string) string {
 		}
 		return join(outs)
 	case "md":
-		dt, drf, drp := p.dflt()
 		var fresh func() stdhash.Hash
 		switch {
+		case ctor == "regsize":
+			if len(toks) != 0 {
+				return "bad-op"
+			}
+			return c14RegSize(p.reg)
 		case ctor == "reg":
 			fresh = func() stdhash.Hash { return p.reg.New() }
 		case ctor == "new":
@@ -202,9 +217,6 @@ func execP2(kind string, a []string) string {
 		default:
 			return "bad-op"
 		}
-		if (ctor == "reg" || ctor == "new") && (dt != t || drf != rf || drp != rp) {
-			return "bad-params"
-		}
 		return c14Guard(func() string { return runHistories(fresh, toks, false) })
 	}
 	return "bad-op"
@@ -215,7 +227,16 @@ func c14ExecVx(a []string) string {
 	if len(a) < 2 {
 		return "bad-op"
 	}
-	p := p2ByName("koalabear")
+	// the helper under test runs first (see `fresh`), then the keys on the line are compared with NewParameters()
+	res := c14ExecVx1(a)
+	w := map[string]int{"comp": 16, "hash": 24, "hash16": 24}[a[0]]
+	if w != 0 && a[1] != p2ByName("koalabear").keys(w, 6, 21) {
+		return "bad-keys"
+	}
+	return res
+}
+
+func c14ExecVx1(a []string) string {
 	toEl := func(v []*big.Int) []kb.Element {
 		o := make([]kb.Element, len(v))
 		for i := range v {
@@ -234,9 +255,6 @@ func c14ExecVx(a []string) string {
 	outs := make([]string, len(a)-2)
 	switch a[0] {
 	case "comp":
-		if a[1] != p.keys(16, 6, 21) {
-			return "bad-keys"
-		}
 		for i, tok := range a[2:] {
 			outs[i] = c14Guard(func() string {
 				f := strings.Split(tok, ":")
@@ -254,17 +272,11 @@ func c14ExecVx(a []string) string {
 			})
 		}
 	case "hash":
-		if a[1] != p.keys(24, 6, 21) {
-			return "bad-keys"
-		}
 		for i, tok := range a[2:] {
 			outs[i] = c14Guard(func() string { return show(vortex.HashPoseidon2(toEl(c14ParseBigs(tok)))) })
 		}
 	case "hash16":
 		// 16 rows of equal length n (a multiple of 16) hashed at once into the caller's 16 leaves, which hold garbage
-		if a[1] != p.keys(24, 6, 21) {
-			return "bad-keys"
-		}
 		for i, tok := range a[2:] {
 			outs[i] = c14Guard(func() string {
 				rows := strings.Split(tok, ";")
@@ -449,7 +461,19 @@ func c14GenVx(g *gen) {
 	for i := 0; i < g.budget(4, 100); i++ {
 		toks = append(toks, c14ShowBigs(c14RandVec(g, q, g.rng.intn(80))))
 	}
-	g.emit("C14 vx hash %s %s", p.keys(24, 6, 21), join(toks))
+	// "the input is zero-padded": a message whose last block is partial, then the same message with the padding zeros written out
+	for _, n := range []int{5, 17, 20, 31, 40} {
+		v := c14RandVec(g, q, n)
+		toks = append(toks, c14ShowBigs(v))
+		for len(v)%16 != 0 {
+			v = append(v, big.NewInt(0))
+		}
+		toks = append(toks, c14ShowBigs(v))
+	}
+	// one message per line (a disagreement names its message)
+	for _, t := range toks {
+		g.emit("C14 vx hash %s %s", p.keys(24, 6, 21), t)
+	}
 	// HashPoseidon2x16: 16 rows at once into a destination slice of leaves pre-filled with garbage
 	toks = nil
 	ns := []int{0, 16, 32, 48}
